@@ -10,7 +10,7 @@ from vlib.ref import bip32 as R
 from vlib.util import call, expect_eq
 
 PROPERTY_ID = "C01"
-OPTIMIZED = ['prf-corners']   # clauses run a second time under `python -O` (assert statements stripped)
+OPTIMIZED = ['prf-corners', 'step', 'path']   # clauses run a second time under `python -O` (assert statements stripped)
 RULE = ("parents (k, c, depth, index, parent fingerprint, network) from a mixture of scalar classes, built "
         "three ways (32-byte key, 00||k key, parsed from the reference xprv); child index from both sides of "
         "2^31; oracle = independent CKDpriv (own secp256k1, own Base58Check); PRF substituted from outside for "
@@ -294,6 +294,66 @@ def classes_prf(case):
     return out
 
 
+# ---------------------------------------------------------------------------- several threads, several parents
+def check_threads(case, ctx):
+    """2..3 threads derive privately at once, each from its own parent (or all from one shared parent), under the
+    deterministic scheduler; every child is compared with the reference."""
+    from vlib.sched import Scheduler
+    import btc_hd_wallet.bip32 as m32
+    import btc_hd_wallet.keys as mk
+    import btc_hd_wallet.helper as mh
+    Prv = _impl()
+    ps = case["parents"]
+    nodes = []
+    for p in ps:
+        nodes.append(Prv(key=p["k"].to_bytes(32, "big"), chain_code=p["c"], index=p["index"], depth=p["depth"],
+                         testnet=p["testnet"], parent_fingerprint=p["pfp"]))
+    shared = case["shared"]
+
+    def runner(t, idxs):
+        node = nodes[0] if shared else nodes[t % len(nodes)]
+
+        def run():
+            out = []
+            for i in idxs:
+                st_, ch = call(node.ckd, i)
+                if st_ == "ok":
+                    st2, xs = call(lambda: (ch.extended_private_key(), ch.extended_public_key()))
+                    out.append((bytes(ch.key), bytes(ch.chain_code), ch.index, xs if st2 == "ok" else repr(xs)))
+                else:
+                    out.append(("EXC", repr(ch)))
+            return out
+        return run
+    sched = Scheduler([tuple(x) for x in case["plan"]], [m32.__file__, mk.__file__, mh.__file__])
+    results, errors = sched.run([runner(t, idxs) for t, idxs in enumerate(case["threads"])])
+    ctx.count("switches", sched.switches)
+    ctx.nontrivial = sched.switches >= 2
+    for t, idxs in enumerate(case["threads"]):
+        if t in errors:
+            raise Violation("C01/threads/crashed", "thread %d raised %r" % (t, errors[t]))
+        p = ps[0] if shared else ps[t % len(ps)]
+        rp = ref_parent(p)
+        vprv, vpub = versions(p["testnet"])
+        for j, i in enumerate(idxs):
+            try:
+                want = R.ckd_priv(rp, i)
+            except R.Invalid:
+                continue
+            exp = (want.k.to_bytes(32, "big"), want.c, i, (want.xprv(vprv), want.xpub(vpub)))
+            got = results[t][j]
+            if got != exp:
+                raise Violation("C01/threads/child-differs", "with %d threads deriving privately at once (%s parents), child "
+                                "%d of thread %d (parent k=%#x) is %r, expected %r" % (
+                                    len(case["threads"]), "one shared" if shared else "distinct", i, t, p["k"], got, exp))
+
+
+def gen_threads(tier):
+    return st.fixed_dictionaries({
+        "parents": st.lists(parents(), min_size=2, max_size=3), "shared": st.sampled_from([False, False, True]),
+        "threads": st.lists(st.lists(S.indexes(), min_size=1, max_size=3), min_size=2, max_size=3),
+        "plan": st.lists(st.tuples(st.integers(0, 2), st.integers(1, 10)), min_size=3, max_size=50)})
+
+
 def clauses():
     return [
         Clause("step", check_step,
@@ -318,4 +378,11 @@ def clauses():
                "serP(kG)||ser32(i) (normal); non-trivial = every case (distinct by parent, index, IL)",
                gen=gen_prf, classes=classes_prf,
                n={"quick": 2400, "thorough": 50000}, shards={"quick": 16, "thorough": 16}),
+        Clause("threads", check_threads,
+               "2..3 threads derive 1..3 children each (both sides of 2^31) from distinct parents (2 in 3 cases) or "
+               "from one shared parent under the deterministic line-granularity scheduler (bip32.py, keys.py, helper.py "
+               "traced); key, chain code, child number and both serialised strings of every child against the "
+               "reference; non-trivial = >= 2 thread switches (measured)",
+               gen=gen_threads, classes=lambda c: ["shared-parent" if c["shared"] else "distinct-parents"],
+               n={"quick": 240, "thorough": 8000}, shards={"quick": 16, "thorough": 16}),
     ]
